@@ -173,7 +173,7 @@ def _split_trace(ctx, trace_path, chunk_events):
     has_reset = False
     with open(trace_path) as f:
         for ln in f:
-            if ln.startswith('{"ev":"reset"') or '"ev":"reset"' in ln[:80]:
+            if '"ev":"reset"' in ln:
                 has_reset = True
                 break
     k = 0
@@ -200,7 +200,7 @@ def _split_trace(ctx, trace_path, chunk_events):
             is_end = ln.startswith('{"ev":"end"}')
             if is_end:
                 continue
-            is_reset = '"ev":"reset"' in ln[:200] if has_reset else True
+            is_reset = ('"ev":"reset"' in ln) if has_reset else True
             if cur is None or (n >= chunk_events and is_reset):
                 close()
                 start()
@@ -398,6 +398,10 @@ def finish(ctx, prop_filter=None):
     for f in os.listdir(os.path.join(EVID, "replay")):
         if f.startswith(ctx.pid + "-"):
             os.remove(os.path.join(EVID, "replay", f))
+    if ctx.scen_by_tid and any(v.get("tid") == 0 for v in ctx.verdicts):
+        # every scenario trace starts with a reset event carrying its tid: a verdict without one was judged from the
+        # middle of a scenario (a trace cut in the wrong place), which is a defect of the machinery, not of the code
+        raise Infra("a verdict was produced outside any scenario (tid 0): trace chunking or driver defect")
     vs = [v for v in ctx.verdicts if v.get("prop") == ctx.pid] if prop_filter is None else [v for v in ctx.verdicts if prop_filter(v)]
     other = len(ctx.verdicts) - len(vs)
     osigs = {}
